@@ -19,6 +19,8 @@ was written for -- the tie is then broken, never approximated) and then calls
   body_from        : drop every statement before the first one whose source starts with the given
                      text; names defined by the dropped part become parameters (they are hand-modelled
                      and tied by the correspondence check, e.g. the member counts of the ensemble Brier score)
+  not_none         : `<name> is not None` -> True (where present), for an optional scalar parameter whose None case the model
+                     handles itself (e.g. `discount_distance is not None and discount_distance < 0`)
   reductions       : `<text>` -> Name, for scalar reductions such as `fcst.max()` that the model
                      computes itself and passes in as a parameter
 and `Kernel2` accepts branch-local temporaries in an `if` statement (names assigned in one branch
@@ -105,6 +107,21 @@ def rewrite(tree, site):
                 hit += 1
         if hit != len(names):
             raise T.Unsupported(f"expected one `if <scalar>:` for each of {sorted(names)}, found {hit}")
+
+    # ---- not_none ----
+    nn = set(steps.get("not_none", []))
+    if nn:
+        hit = set()
+
+        class NN(ast.NodeTransformer):
+            def visit_Compare(self, node):
+                self.generic_visit(node)
+                if (len(node.ops) == 1 and isinstance(node.ops[0], ast.IsNot) and isinstance(node.left, ast.Name) and node.left.id in nn
+                        and isinstance(node.comparators[0], ast.Constant) and node.comparators[0].value is None):
+                    hit.add(node.left.id)
+                    return ast.copy_location(ast.Constant(value=True), node)
+                return node
+        NN().visit(fn)   # absent test: nothing to rewrite (the parameter is then compared as a plain number)
 
     # ---- reductions ----
     red = steps.get("reductions", {})
